@@ -23,7 +23,7 @@ PROJECTION = {
     "C05": ["snap:evq", "result:adv", "result:events", "wire:Input", "wire:InputAck", "wire:SyncRequest", "wire:SyncReply", "snap:eps", "snap:run", "build"],
     "C06": ["result:adv", "wire:Input", "snap:behind", "snap:lrf", "snap:nsf", "snap:cur", "build"],
     "C07": ["snap:evq", "result:adv", "result:events", "result:disc", "snap:st", "snap:df", "snap:eps", "build"],
-    "C08": ["result:adv", "result:poll", "result:events", "wire:InputAck", "snap:st", "snap:eps", "snap:run", "build"],
+    "C08": ["result:adv", "result:poll", "result:events", "wire:InputAck", "wire:SyncRequest", "wire:SyncReply", "snap:st", "snap:eps", "snap:run", "build"],
     "C09": ["snap:evq", "result:events", "wire:ChecksumReport", "snap:lch", "snap:eps", "result:adv", "build"],
     "C10": ["snap:evq", "result:adv", "result:events", "snap:st", "snap:df", "build"],
     "C11": ["result:setdelay", "result:adv", "wire:Input", "snap:out", "snap:st", "build"],
